@@ -1,6 +1,7 @@
 package main
 
 import (
+	"hash"
 	"sync"
 	"fmt"
 	"runtime"
@@ -479,7 +480,11 @@ func runC20(o *out, thorough bool, r *rng, _ []string) map[string]interface{} {
 			continue
 		}
 		damaged := append([]byte(nil), good...)
-		damaged = damaged[:len(damaged)-1-r.intn(3)] // the last attribute is cut short
+		lastOff := 20
+		for off := 20; off+4 <= len(good); off += 4 + pad4(int(good[off+2])<<8|int(good[off+3])) {
+			lastOff = off
+		}
+		damaged[lastOff+2] = 0x40 // the last attribute claims more bytes than there are
 		m := new(stun.Message)
 		_ = stun.Decode(good, m)
 		_ = stun.Decode(good, m)
@@ -587,6 +592,59 @@ func runC20(o *out, thorough bool, r *rng, _ []string) map[string]interface{} {
 		}
 		emit([]int{10}, caps, cur.fields, obs, fmt.Sprintf("build maxunknown=%d", maxUnknown))
 	}
+	// sixty-four pooled HMAC states held at the same time (as sixty-four checks in flight hold them), given back,
+	// and taken again: the second time the pool serves every one of them
+	for _, algo := range []int{1, 2} {
+		al := algoOf(algo)
+		key := []byte("k")
+		held := make([]hash.Hash, 64)
+		cycle := func() {
+			for k := range held {
+				held[k] = al.acquire(key)
+			}
+			for k := range held {
+				al.put(held[k])
+			}
+		}
+		cycle()
+		cycle()
+		if nal := mallocs(cycle); nal > 8 {
+			o.failFor("C20", "warm-op-allocates", fmt.Sprintf("x 64 pooled HMAC states (algorithm %d) acquired together, returned, acquired again: %d allocation(s) the second time", algo, nal))
+		}
+		o.count("pool-serves-many-holders")
+	}
+	// a Decode that fails among the attributes drops nothing the next Decode needs (each repetition of
+	// "fail, then measure the well-formed one" would show the same allocation again)
+	for i := 0; i < 40; i++ {
+		good := r.validMessage(2+r.intn(6), 24)
+		if len(good) < 28 {
+			continue
+		}
+		// the length field of the last attribute runs past the message: the decoder fails AMONG the attributes
+		damaged := append([]byte(nil), good...)
+		last := 20
+		for off := 20; off+4 <= len(good); off += 4 + pad4(int(good[off+2])<<8|int(good[off+3])) {
+			last = off
+		}
+		damaged[last+2] = 0x40
+		m := new(stun.Message)
+		_ = stun.Decode(good, m)
+		_ = stun.Decode(good, m)
+		every := true
+		for rep := 0; rep < 3; rep++ {
+			if stun.Decode(damaged, m) == nil {
+				every = false
+				break
+			}
+			if mallocs(func() { _ = stun.Decode(good, m) }) == 0 {
+				every = false
+			}
+		}
+		if every {
+			o.failFor("C20", "warm-op-allocates", fmt.Sprintf("x every Decode of %s that follows a failed Decode of %s into the same warm Message allocates", fHex(good), fHex(damaged)))
+		}
+		o.count("decode-after-failed-decode-repeated")
+	}
 	// many integrity checks in flight at once, each goroutine on a warm Message of its own: steady state means the
 	// pool serves them all (measured over the whole process; a few allocations of the runtime are tolerated)
 	runtime.GOMAXPROCS(oldProcs)
@@ -620,7 +678,8 @@ func runC20(o *out, thorough bool, r *rng, _ []string) map[string]interface{} {
 		round(2000)
 		runtime.ReadMemStats(&msB)
 		total := workers * 2000
-		if d := msB.Mallocs - msA.Mallocs; d > uint64(total/50+256) {
+		o.countN("concurrent-integrity-checks-allocations", int(msB.Mallocs-msA.Mallocs))
+		if d := msB.Mallocs - msA.Mallocs; d > uint64(workers*16+512) {
 			o.failFor("C20", "warm-op-allocates", fmt.Sprintf("x %d goroutines x 2000 integrity checks on warm Messages of their own: %d allocations (steady state: about one per goroutine started)", workers, d))
 		}
 		o.countN("concurrent-integrity-checks", total)
